@@ -90,6 +90,9 @@ func runOne(ctx context.Context, sd solverDef, file string, to time.Duration) (s
 
 // solve decides one obligation.
 func solve(o *Obligation, cfg *SolverCfg) {
+	if o.Solver == "syntactic" {
+		return
+	}
 	text := o.smtText()
 	o.Bytes = len(text)
 	sum := sha256.Sum256([]byte(text))
